@@ -47,6 +47,12 @@ CLAIMED = {
  "C16": dict(cat="fault_enumeration", technique="fault injection at the process boundary (RLIMIT_FSIZE sweep, strace syscall error and SIGKILL injection, input-borne failures) + post-run file classifier and stderr/exit oracle",
    text="Every fault point of the enumeration (write cut after k bytes for a sweep of k; each write-path syscall failing with EIO/ENOSPC/EACCES/EDQUOT at its n-th call; the process killed at those calls; per-file and per-patch input failures at every position of a multi-file run) is executed against the real CLI on scratch copies; afterwards every *.go file must hold its original or its complete patched bytes (baseline from a fault-free run), exit status and stderr must report path and cause, and other files' results must be unaffected.",
    note="Whether a fault fired is read from the strace log (INJECTED marker / kill); GOMAXPROCS=1 so that strace's per-thread counter is meaningful. A fault that hits gopatch's own write to stderr makes the diagnostic unobservable and is only classified for file integrity.", ref="5/C16"),
+ "C18": dict(cat="exploration", technique="exhaustive header table (4800 cells, flag off and on) through the CLI with digest/stdout/stderr monitors, judged by a three-valued reference predicate",
+   text="Every combination of marker spelling (well-formed and 15 near-misses), comment form, position (package doc, detached, after the package clause, in a function, end of file), companions (licence header, build tag), output mode and match/no-match is run with and without --skip-generated; must-skip cells must be completely untouched and silent, must-process cells byte-identical to the flag-off run, flag-off runs unaffected by the marker.",
+   note="Exhaustive for the enumerated grammar; don't-care cells (detached '@generated', marker text inside a block comment) accept either behaviour.", ref="5/C18"),
+ "C19": dict(cat="exploration", technique="fault injection into valid patches with a position oracle (injector knows the corrupted token's byte offset)",
+   text="One header or metavariable fault of 16 kinds is injected at a random change of a 1-5 change patch with comment/blank lines, tabs and multi-byte characters before it; the diagnostic (patch.Parse error, CLI stderr via -p relative/absolute and stdin) must contain '<patch>:<line>:<byte column>' of the offending token, exit must be non-zero, the patch file must be named, and the target file must not change.",
+   note="Byte columns as go/token counts them; for a missing type the offending token is the end of the line.", ref="5/C19"),
 #NEXT
 }
 
